@@ -287,6 +287,17 @@ func init() {
 			return 0
 		},
 		Run: func(c *core.Ctx) {
+			// Scale[T](h, l) where 2^(h-l) does not fit T has no meaningful result, but it is an ordinary call:
+			// made first (narrow types before wide ones), it must not influence the calls judged below
+			for _, ty := range []string{"int8", "uint8", "MyInt8", "MyUint8", "int16", "uint16", "MyInt16", "MyUint16", "int32", "uint32", "MyInt32", "MyUint32"} {
+				if f := scaleFns[ty]; f != nil {
+					for h := 1; h <= 64; h++ {
+						for l := 1; l <= h; l++ {
+							dyn.Try(func() { f(signal.BitDepth(h), signal.BitDepth(l)) })
+						}
+					}
+				}
+			}
 			// order of first use: fresh processes that touch a few depths first (also depths outside 1..64,
 			// which are legal uint8 values) and then check every depth
 			var jobs []core.WorkerJob
